@@ -387,6 +387,25 @@ func init() {
 		return []Value{&SliceV{A: e.newObj(arr, "events"), Len: len(arr.E), Cap: len(arr.E)}}
 	}
 
+	// ---------- addresses / accounts built by SDK helpers ----------
+	models["(github.com/cosmos/cosmos-sdk/types.AccAddress).String"] = func(e *Exec, a []Value) []Value {
+		s := asSlice(e, a[0])
+		if s.Op == nil && (s.Nil || s.Len == 0) {
+			return []Value{StrLit("")}
+		}
+		return []Value{App("addr.str.acc", StrSort, e.bytesTerm(s))}
+	}
+	models["github.com/cosmos/cosmos-sdk/x/auth/types.NewModuleAddress"] = func(e *Exec, a []Value) []Value {
+		return []Value{&SliceV{Op: moduleAddr(asTerm(e, a[0]))}}
+	}
+	models["github.com/cosmos/gogoproto/proto.EnumName"] = func(e *Exec, a []Value) []Value {
+		m, ok := a[0].(*ModelObj)
+		if !ok {
+			e.unsupported("EnumName on a non-modelled map")
+		}
+		return []Value{App("str.enum."+m.Name, StrSort, asTerm(e, a[1]))}
+	}
+
 	// ---------- address codecs ----------
 	ac := "addrcodec."
 	models[ac+"StringToBytes"] = func(e *Exec, a []Value) []Value {
